@@ -213,6 +213,11 @@ class BaseSamples:
             x = np.stack([dictionary[p] for p in parameters], axis=-1)
             for p in parameters:
                 dictionary.pop(p, None)
+        # Derived fields (init=False) are written by to_dict but are not
+        # constructor arguments; they are recomputed in __post_init__
+        for f in fields(cls):
+            if not f.init:
+                dictionary.pop(f.name, None)
         return cls(x=x, parameters=parameters, **dictionary)
 
     def to_dataframe(self, include: list[str] | None = None) -> "pd.DataFrame":
